@@ -79,6 +79,11 @@ type fioOp struct {
 	userLen int64 // S/O: caller-supplied /Length, or -1
 	refs    []pdf.Reference
 	objs    []pdf.Object
+
+	// error-then-continue programs (fioProg.cont)
+	mustFail bool   // the Writer must refuse this operation ("!" in the program text)
+	failKind string // F: how the OpenStream is made to fail; Y: index of the bad member
+	failed   bool   // set by fioExec: the operation returned an error (and the program went on)
 }
 
 type fioProg struct {
@@ -93,6 +98,9 @@ type fioProg struct {
 	infoX    string // full Info specification (fio_info.go); overrides info/infoDate when non-empty
 	layout   string
 	ops      []fioOp
+
+	cont  bool   // "K": operations which fail do not end the program (error-then-continue)
+	risky string // class key of a failing operation known to leave traces (see fioErrContRisky)
 
 	createPath string // not part of the program text: write through pdf.Create(createPath, …) instead of NewWriter
 }
@@ -135,8 +143,14 @@ func (p *fioProg) String() string {
 	if p.infoX != "" {
 		sb.WriteString("~" + p.infoX)
 	}
+	if p.cont {
+		sb.WriteString("|K")
+	}
 	for _, op := range p.ops {
 		sb.WriteString("|")
+		if op.mustFail {
+			sb.WriteString("!")
+		}
 		fl := "-"
 		if len(op.filters) > 0 {
 			fl = strings.Join(op.filters, "+")
@@ -164,6 +178,15 @@ func (p *fioProg) String() string {
 			fmt.Fprintf(&sb, "O~%d~%d~%s~%s~%d", op.ref.Number(), op.ref.Generation(), dw, fl, op.userLen)
 		case 'W':
 			sb.WriteString("W~" + hexWire(op.data))
+		case 'F':
+			fmt.Fprintf(&sb, "F~%d~%d~%s", op.ref.Number(), op.ref.Generation(), op.failKind)
+		case 'E':
+			fmt.Fprintf(&sb, "E~%d~%d", op.ref.Number(), op.ref.Generation())
+		case 'Y':
+			sb.WriteString("Y~" + op.failKind)
+			for i := range op.refs {
+				fmt.Fprintf(&sb, "~%d~%d", op.refs[i].Number(), op.refs[i].Generation())
+			}
 		case 'Z':
 			sb.WriteString("Z")
 			for i := range op.refs {
@@ -211,8 +234,14 @@ func fioParseProg(s string) (*fioProg, error) {
 		p.infoX = h[11]
 	}
 	for _, item := range parts[1:] {
+		if item == "K" {
+			p.cont = true
+			continue
+		}
+		mustFail := strings.HasPrefix(item, "!")
+		item = strings.TrimPrefix(item, "!")
 		f := strings.Split(item, "~")
-		op := fioOp{kind: f[0][0], same: -1, userLen: -1}
+		op := fioOp{kind: f[0][0], same: -1, userLen: -1, mustFail: mustFail}
 		mkref := func(a, b string) pdf.Reference { return pdf.NewReference(uint32(atoi(a)), uint16(atoi(b))) }
 		flt := func(x string) []string {
 			if x == "-" {
@@ -259,6 +288,16 @@ func fioParseProg(s string) (*fioProg, error) {
 			op.userLen, _ = strconv.ParseInt(f[5], 10, 64)
 		case 'W':
 			op.data = fioUnhex(f[1])
+		case 'F':
+			op.ref = mkref(f[1], f[2])
+			op.failKind = f[3]
+		case 'E':
+			op.ref = mkref(f[1], f[2])
+		case 'Y':
+			op.failKind = f[1]
+			for i := 2; i+1 < len(f); i += 2 {
+				op.refs = append(op.refs, mkref(f[i], f[i+1]))
+			}
 		case 'Z':
 			for i := 1; i+2 < len(f)+0 && i+2 <= len(f)-1+0; i += 3 {
 				op.refs = append(op.refs, mkref(f[i], f[i+1]))
@@ -304,6 +343,9 @@ type fioResult struct {
 	xref      []pdf.VerifFIOEntry
 	nextRef   uint32
 	objStms   []pdf.Reference // one per successful WriteCompressed which made a stream (reference learnt after the fact)
+
+	failedRefs      []pdf.Reference // cont programs: references named by operations which failed
+	acceptedInvalid []int           // cont programs: operations marked mustFail which the Writer accepted
 }
 
 const fioUserPw, fioOwnerPw = "user-pw", "owner-pw"
@@ -469,18 +511,45 @@ func fioExec(p *fioProg, gen func(st *fioExecState) bool) *fioResult {
 				dict["Length"] = pdf.Integer(op.userLen)
 			}
 			before := fioSnapshot(dict)
-			streamWant = fioCloneDict(op.dict)
-			stream, err = w.OpenStream(op.ref, dict, fioFilters(op.filters)...)
+			var ws io.WriteCloser
+			ws, err = w.OpenStream(op.ref, dict, fioFilters(op.filters)...)
 			if after := fioSnapshot(dict); after != before {
 				res.mutated = append(res.mutated, fmt.Sprintf("op %d OpenStream(%v): dictionary %s became %s", i, op.ref, before, after))
 			}
 			if err == nil {
+				stream = ws
+				streamWant = fioCloneDict(op.dict)
 				streamRef = op.ref
 				streamData = nil
 				streamOp = i
 				streamDict = dict
 				streamSnap = before
 			}
+		case 'F':
+			// an OpenStream made to fail behind its cross-reference entry (or, kind
+			// "crypt2", before it); the program goes on
+			dict, filters := fioFailingOpenStream(op.failKind)
+			var ws io.WriteCloser
+			ws, err = w.OpenStream(op.ref, dict, filters...)
+			if err == nil {
+				stream = ws // the oracle reports it (mustFail); keep the Writer usable
+				streamWant, streamRef, streamData, streamOp, streamDict, streamSnap = pdf.Dict{}, op.ref, nil, i, dict, fioSnapshot(dict)
+			}
+		case 'E':
+			// Put of an object whose formatting fails half way
+			err = w.Put(op.ref, pdf.Array{pdf.Integer(1), &pdf.Stream{Dict: pdf.Dict{}}})
+		case 'Y':
+			// WriteCompressed with one member whose formatting fails
+			bad, _ := strconv.Atoi(op.failKind)
+			var objs []pdf.Object
+			for k := range op.refs {
+				if k == bad {
+					objs = append(objs, pdf.Array{&pdf.Stream{Dict: pdf.Dict{}}})
+				} else {
+					objs = append(objs, pdf.Integer(k))
+				}
+			}
+			err = w.WriteCompressed(op.refs, objs...)
 		case 'W':
 			if stream == nil {
 				return errors.New("harness: write without open stream")
@@ -547,7 +616,25 @@ func fioExec(p *fioProg, gen func(st *fioExecState) bool) *fioResult {
 		if i >= len(p.ops) {
 			break
 		}
-		if err := step(i); err != nil {
+		err := step(i)
+		if p.cont && !res.panicked {
+			op := &p.ops[i]
+			if err != nil && op.mustFail {
+				// error-then-continue: the program goes on
+				op.failed = true
+				if op.kind == 'Z' || op.kind == 'Y' {
+					res.failedRefs = append(res.failedRefs, op.refs...)
+				} else {
+					res.failedRefs = append(res.failedRefs, op.ref)
+				}
+				i++
+				continue
+			}
+			if err == nil && op.mustFail {
+				res.acceptedInvalid = append(res.acceptedInvalid, i)
+			}
+		}
+		if err != nil {
 			res.failedAt = i
 			res.err = err
 			return res
@@ -578,6 +665,34 @@ func fioExec(p *fioProg, gen func(st *fioExecState) bool) *fioResult {
 		res.file = plainBuf.buf
 	}
 	return res
+}
+
+// fioFailKinds: the ways in which an OpenStream is made to fail after it has
+// entered its cross-reference entry ("crypt2" fails before that).
+var fioFailKinds = []string{"length-name", "length-ref", "filter-ref", "parms-ref", "flate-predictor", "flate-columns", "lzw-columns", "flate-string-length", "crypt2"}
+
+func fioFailingOpenStream(kind string) (pdf.Dict, []pdf.Filter) {
+	switch kind {
+	case "length-name":
+		return pdf.Dict{"Length": pdf.Name("x")}, nil
+	case "length-ref":
+		return pdf.Dict{"Length": pdf.NewReference(9, 0)}, nil
+	case "flate-string-length":
+		return pdf.Dict{"Length": pdf.String("12")}, []pdf.Filter{pdf.FilterASCIIHex{}}
+	case "filter-ref":
+		return pdf.Dict{"Filter": pdf.NewReference(9, 0)}, nil
+	case "parms-ref":
+		return pdf.Dict{"K": pdf.Integer(1), "DecodeParms": pdf.Array{pdf.NewReference(9, 0)}}, nil
+	case "flate-predictor":
+		return pdf.Dict{}, []pdf.Filter{pdf.FilterFlate{Predictor: 99}}
+	case "flate-columns":
+		return pdf.Dict{"K": pdf.Name("v")}, []pdf.Filter{pdf.FilterASCIIHex{}, pdf.FilterFlate{Predictor: 12, Columns: -1}}
+	case "lzw-columns":
+		return pdf.Dict{}, []pdf.Filter{pdf.FilterLZW{Columns: 5}}
+	case "crypt2":
+		return pdf.Dict{}, []pdf.Filter{pdf.FilterASCIIHex{}, pdf.FilterCryptIdentity{}}
+	}
+	return pdf.Dict{"Length": pdf.Name("x")}, nil
 }
 
 type fioExecState struct {
@@ -708,6 +823,12 @@ func fioGenProg(r *Rand, thorough bool, broken int) *fioResult {
 	if broken > 0 {
 		p.encrypt = false
 	}
+	if broken < 0 {
+		// error-then-continue: operations which must fail are spread over the
+		// program, which goes on after each of them and is closed at the end
+		p.cont = true
+	}
+	riskyWanted := broken == -2
 	titles := []string{"", "Title", "Über uns", "日本語 Ω", "(a)\\b", "x\ry\nz"}
 	p.info = [3]string{Pick(r, titles), Pick(r, titles), Pick(r, titles)}
 	if r.P(1, 3) {
@@ -766,6 +887,57 @@ func fioGenProg(r *Rand, thorough bool, broken int) *fioResult {
 			case 5: // a stream written twice
 				if len(st.res.order) > 0 {
 					return add(fioOp{kind: 'O', ref: Pick(r, st.res.order), dict: pdf.Dict{}, userLen: -1})
+				}
+			}
+		}
+		if p.cont && st.inStream && r.P(1, 8) {
+			// operations which are refused while a stream is open
+			if r.Bool() || len(free) == 0 {
+				return add(fioOp{kind: 'O', ref: pdf.NewReference(uint32(800+r.Intn(50)), 0), dict: pdf.Dict{}, userLen: -1, same: -1, mustFail: true})
+			}
+			return add(fioOp{kind: 'Z', refs: []pdf.Reference{free[0]}, objs: []pdf.Object{pdf.Integer(3)}, mustFail: true})
+		}
+		if p.cont && !st.inStream && r.P(1, 4) {
+			written := st.res.order
+			k := r.Intn(12)
+			if riskyWanted && p.risky == "" && len(free) > 1 && r.Bool() {
+				k = 11
+			}
+			switch {
+			case k == 0 && len(written) > 0: // a number defined twice
+				return add(fioOp{kind: 'P', ref: Pick(r, written), obj: genObj(r, 1, false), same: -1, mustFail: true})
+			case k == 1 && len(written) > 0:
+				return add(fioOp{kind: 'S', ref: Pick(r, written), dict: pdf.Dict{}, data: []byte("dup"), userLen: -1, same: -1, mustFail: true})
+			case k == 2 && len(written) > 0:
+				return add(fioOp{kind: 'O', ref: Pick(r, written), dict: pdf.Dict{}, userLen: -1, same: -1, mustFail: true})
+			case k == 3 && len(free) > 0: // non-zero generation in WriteCompressed
+				return add(fioOp{kind: 'Z', refs: []pdf.Reference{pdf.NewReference(free[0].Number(), 1)}, objs: []pdf.Object{pdf.Integer(2)}, mustFail: true})
+			case k == 4 && len(free) > 0: // a reference as a member
+				return add(fioOp{kind: 'Z', refs: []pdf.Reference{free[0]}, objs: []pdf.Object{pdf.NewReference(1, 0)}, mustFail: true})
+			case k <= 9 && len(free) > 0: // OpenStream failing behind its xref entry; the number stays free for a retry
+				ref := Pick(r, free)
+				if r.P(1, 5) {
+					ref = pdf.NewReference(ref.Number(), uint16(Pick(r, []int{1, 65535})))
+				}
+				return add(fioOp{kind: 'F', ref: ref, failKind: Pick(r, fioFailKinds), mustFail: true})
+			case riskyWanted && p.risky == "" && len(free) > 1:
+				// operations known to leave traces when they fail (candidate defects, see notes/C02.md)
+				switch r.Intn(3) {
+				case 0:
+					ref, _ := takeRef()
+					p.risky = "put-format-error-residue"
+					return add(fioOp{kind: 'E', ref: ref, mustFail: true})
+				case 1:
+					a, _ := takeRef()
+					b, _ := takeRef()
+					p.risky = "writecompressed-error-residue"
+					return add(fioOp{kind: 'Y', refs: []pdf.Reference{a, b}, failKind: fmt.Sprint(r.Intn(2)), mustFail: true})
+				default:
+					if len(written) > 0 {
+						a, _ := takeRef()
+						p.risky = "writecompressed-error-residue"
+						return add(fioOp{kind: 'Z', refs: []pdf.Reference{a, written[0]}, objs: []pdf.Object{pdf.Integer(1), pdf.Integer(2)}, mustFail: true})
+					}
 				}
 			}
 		}
@@ -943,8 +1115,33 @@ func oracleFileRoundTrip(res *fioResult) (v []fioViolation) {
 	for _, m := range res.mutated {
 		v = append(v, fioViolation{"caller-object-modified", m})
 	}
+	for _, i := range res.acceptedInvalid {
+		v = append(v, fioViolation{"invalid-op-accepted", fmt.Sprintf("op %d (%c) must be refused and was accepted", i, res.prog.ops[i].kind)})
+	}
 	if res.failedAt != -1 {
 		return v
+	}
+	// error-then-continue: no operation which failed may have left a cross-reference entry
+	if res.prog.cont {
+		for _, ref := range res.failedRefs {
+			if _, ok := res.written[ref]; ok {
+				continue
+			}
+			laterWritten := false
+			for w := range res.written {
+				if w.Number() == ref.Number() {
+					laterWritten = true
+				}
+			}
+			if laterWritten {
+				continue
+			}
+			for _, e := range res.xref {
+				if e.Num == ref.Number() && (e.Pos >= 0 || e.InStream != 0) {
+					v = append(v, fioViolation{"failed-op-left-entry", fmt.Sprintf("the operation on %v failed, nothing was written under that number, but the Writer's table has an entry for it (pos %d, in stream %d)", ref, e.Pos, e.InStream)})
+				}
+			}
+		}
 	}
 	rd, err := fioReopen(res)
 	if err != nil {
@@ -1047,6 +1244,8 @@ func oracleFileRoundTrip(res *fioResult) (v []fioViolation) {
 			never = append(never, ref)
 		}
 	}
+	// error-then-continue: what a failed operation named, and nothing wrote later, is absent
+	never = append(never, res.failedRefs...)
 	for _, ref := range never {
 		if _, ok := res.written[ref]; ok {
 			continue
@@ -1260,7 +1459,15 @@ func fioModelLine(res *fioResult) (string, error) {
 		// the caller's values are no longer what the program says (reported by the oracle)
 		return "", errFioSkip
 	}
+	if p.risky != "" {
+		// a failing operation known to leave traces: the model (which says that a
+		// failure leaves none) is not asked
+		return "", errFioSkip
+	}
 	failed := res.failedAt != -1
+	if failed && p.cont {
+		return "", errFioSkip
+	}
 	if failed {
 		// The bytes which reached the writer through filters or ciphers are
 		// taken from the finished file; a program that failed has none.
@@ -1295,6 +1502,32 @@ func fioModelLine(res *fioResult) (string, error) {
 	}
 	for i := 0; i < nops; i++ {
 		op := &p.ops[i]
+		if op.failed {
+			// error-then-continue: the model must refuse the operation as well ("!"), or — an
+			// OpenStream failing behind setXRef — roll the entry back ("F")
+			switch op.kind {
+			case 'F':
+				if op.failKind != "crypt2" {
+					ops = append(ops, fmt.Sprintf("F~%d~%d", op.ref.Number(), op.ref.Generation()))
+				}
+			case 'P':
+				ops = append(ops, fmt.Sprintf("!P~%d~%d~%s", op.ref.Number(), op.ref.Generation(), wire(op.obj)))
+			case 'S':
+				ops = append(ops, fmt.Sprintf("!S~%d~%d~%s~-~%s", op.ref.Number(), op.ref.Generation(), wire(op.dict), hexWire(op.data)))
+			case 'O':
+				ops = append(ops, fmt.Sprintf("!O~%d~%d~%s~-", op.ref.Number(), op.ref.Generation(), wire(op.dict)))
+			case 'Z':
+				var sb strings.Builder
+				sb.WriteString("!Z~-")
+				for k, ref := range op.refs {
+					fmt.Fprintf(&sb, "~%d~%d~%s", ref.Number(), ref.Generation(), wire(op.objs[k]))
+				}
+				ops = append(ops, sb.String())
+			default:
+				return "", errFioSkip
+			}
+			continue
+		}
 		switch op.kind {
 		case 'A':
 			ops = append(ops, "A")
@@ -1362,7 +1595,7 @@ func fioModelLine(res *fioResult) (string, error) {
 			// data of filtered/encrypted streams is delivered at the Close
 			filtered := false
 			for j := i - 1; j >= 0; j-- {
-				if p.ops[j].kind == 'O' {
+				if p.ops[j].kind == 'O' && !p.ops[j].failed {
 					filtered = !failed && (len(p.ops[j].filters) > 0 || p.encrypt)
 					break
 				}
@@ -1494,6 +1727,34 @@ func init() {
 	addReplay("C02", "file-roundtrip", replayFIOProg)
 }
 
+// fioStatCont counts the operations which failed in error-then-continue programs.
+func fioStatCont(c *Ctx, res *fioResult) {
+	if !res.prog.cont {
+		return
+	}
+	c.Stat("prog_error_then_continue")
+	if res.prog.risky != "" {
+		c.Stat("prog_cont_" + res.prog.risky)
+	}
+	retried := map[uint32]bool{}
+	for _, op := range res.prog.ops {
+		if !op.failed {
+			continue
+		}
+		name := string(op.kind)
+		if op.kind == 'F' {
+			name = "F_" + op.failKind
+			for w := range res.written {
+				if w.Number() == op.ref.Number() && !retried[w.Number()] {
+					retried[w.Number()] = true
+					c.Stat("cont_openstream_retried_ok")
+				}
+			}
+		}
+		c.Stat("cont_failed_" + name)
+	}
+}
+
 func fioStatProg(c *Ctx, res *fioResult) {
 	p := res.prog
 	c.Stat(fmt.Sprintf("prog_version_%d", int(p.version)))
@@ -1584,11 +1845,17 @@ func runFIOProg(c *Ctx) {
 		broken := 0
 		if r.P(1, 8) {
 			broken = 1 + r.Intn(5)
+		} else if r.P(1, 5) {
+			broken = -1 // error-then-continue
+			if r.P(1, 4) {
+				broken = -2 // … with one failing operation known to leave traces
+			}
 		}
 		res := fioGenProg(r.Fork(), c.Thorough, broken)
 		text := res.prog.String()
 		c.Case(text, len(res.written) > 0)
 		fioStatProg(c, res)
+		fioStatCont(c, res)
 		if i < 4 {
 			c.Sample("program: " + text)
 		}
@@ -1605,6 +1872,9 @@ func runFIOProg(c *Ctx) {
 					key = "writer-panic"
 				}
 				key = fioClassifyFailure(res, key)
+				if res.prog.risky != "" {
+					key = res.prog.risky
+				}
 				c.Violate("file-roundtrip", key, fmt.Sprintf("op %d of a valid program failed: %v", res.failedAt, res.err), text)
 			}
 		} else if broken > 0 {
@@ -1612,6 +1882,9 @@ func runFIOProg(c *Ctx) {
 		}
 		_ = expectFail
 		for _, v := range oracleFileRoundTrip(res) {
+			if res.prog.risky != "" {
+				v.key = res.prog.risky
+			}
 			c.Violate("file-roundtrip", v.key, v.desc, text)
 		}
 		// correspondence with the writer model: same bytes, or failure at the same operation
